@@ -106,3 +106,44 @@ Proof. intros. unfold g_sim_latest_events_event. destruct e; reflexivity. Qed.
 
 Lemma gen_sim_plugin_events : forall e, g_sim_plugin_events e = if e then ([], RetO 0) else ([1], RetO 1).
 Proof. intros. reflexivity. Qed.
+
+(* ---------------- BlockBroadcaster ---------------- *)
+(* one timer tick: the next block number is taken (1); past the limit the run ends (2), otherwise the block is broadcast
+   (3); the done signal stops the timer and the loop *)
+Lemma gen_sim_bb_run : forall c,
+  g_sim_bb_run = ([1; 2], Fall) /\
+  g_sim_bb_run_body true c = (if 0 <? c then ([1; 2; 4], Fall) else ([1; 3; 4], Fall)) /\
+  g_sim_bb_run_body false c = ([5], RetU).
+Proof. intros c. unfold g_sim_bb_run_body. rewrite Z.gtb_ltb. repeat split. Qed.
+
+(* a broadcast: every loader fills the block (1), the block is hashed (2), and every subscription gets it (4) on a
+   goroutine of its own, which always sends (2 of the deliver function), delayed only for delay subscriptions *)
+Lemma gen_sim_bb_broadcast : forall p d m,
+  In 1 (fst (g_sim_bb_broadcast p)) /\ In 4 (fst (g_sim_bb_broadcast p)) /\
+  g_sim_bb_loaders_body = ([1], Fall) /\ g_sim_bb_subs_body = ([1], Fall) /\
+  last (fst (g_sim_bb_deliver d m)) 0 = 2 /\ snd (g_sim_bb_deliver d m) = Fall.
+Proof.
+  intros p d m. unfold g_sim_bb_broadcast, g_sim_bb_deliver. destruct p, d, (m >? 0); cbn; auto 10.
+Qed.
+
+(* unsubscribe: the subscription is forgotten either way (3, 4); a known one is counted down (1) and, unless the
+   subscriber's goroutine panicked on a closed channel, its channel is closed (2) *)
+Lemma gen_sim_bb_unsubscribe : forall k c,
+  g_sim_bb_unsubscribe k c = if k then (if c then ([1; 2; 3; 4], Fall) else ([1; 3; 4], Fall)) else ([3; 4], Fall).
+Proof. intros. reflexivity. Qed.
+
+(* ---------------- Listener ---------------- *)
+(* a block from the broadcaster is saved (1), sent to the block channel (2) - always - and each of its transactions to
+   the channel of its kind (3; the perform-upkeep transactions the report tracker reads go to channel 3, then 5) *)
+Lemma gen_sim_listener : forall l c p u,
+  g_sim_listener_run_body true = ([1; 2; 3], Fall) /\ g_sim_listener_run_body false = ([], RetU) /\
+  last (fst (g_sim_listener_tx_body l c p u)) 0 = 5 /\
+  g_sim_listener_tx_body false false true u = ([3; 5], Fall).
+Proof. intros l c p u. repeat split; destruct l, c, p, u; reflexivity. Qed.
+
+(* an event reaches every subscriber of its channel, each on its own goroutine; subscribing appends to every named
+   channel's list *)
+Lemma gen_sim_listener_fanout : forall s,
+  g_sim_listener_broadcast true = ([1], Fall) /\ g_sim_listener_broadcast false = ([], Fall) /\
+  g_sim_listener_broadcast_body = ([1], Fall) /\ last (fst (g_sim_listener_subscribe_body s)) 0 = 2.
+Proof. intros s. repeat split; destruct s; reflexivity. Qed.
